@@ -435,10 +435,11 @@ def sweep_worker(job):
 # ---- history part -------------------------------------------------------------------------------------
 CORE5 = ('%', '%%', '%s', '$x', '$$')
 def hist_items(quick):
-    """(channel, names, layout) items. Statement pool: all single fragments, plus all pairs of
-    fragments (thorough) / pairs over the escape-relevant core (quick)."""
+    """(channel, names, layout) items. Statement pool: all single fragments, plus all two-fragment
+    statements over the escape-relevant core {% %% %s $x $$} (quick) / that core plus {a, $x;, '$quoted'}
+    (thorough)."""
     one = [(n,) for n in lib.NAMES]
-    two_all = list(itertools.product(lib.NAMES, repeat=2))
+    two_all = list(itertools.product(CORE5 + ('a', '$x;', "'$quoted'"), repeat=2))
     two_core = list(itertools.product(CORE5, repeat=2))
     big = one + (two_core if quick else two_all)
     small = one + two_core
